@@ -12,7 +12,7 @@
     3. [lock_always_rolled_back]: in Lock.v (the control flow of
        checkpointWithExecutor). *)
 From Coq Require Import String List Bool ZArith Lia.
-From LS Require Import Gen.Stmts Gen.FsSites Stmts.Model.
+From LS Require Import Gen.Stmts Gen.FsSites Gen.TxSites Stmts.Model.
 Import ListNotations.
 
 (** ------------------------------------------------------------------ *)
@@ -32,6 +32,22 @@ Proof. vm_compute. reflexivity. Qed.
 
 Lemma db_file_readonly_lemma : forallb site_ok sites = true.
 Proof. vm_compute. reflexivity. Qed.
+
+(** every transaction litestream begins is guarded (defer / owning field /
+    guarded variable) before any statement that can return early; no guarded
+    variable is cleared without a rollback; nothing is ever committed *)
+Lemma tx_release_discipline_lemma :
+  forallb tx_site_ok tx_sites = true /\ nil_list tx_nil_without_release = true /\ nil_list tx_commits = true.
+Proof. vm_compute. repeat split. Qed.
+
+Example tx_sites_nonempty : (3 <= List.length tx_sites)%nat.
+Proof. vm_compute. repeat constructor. Qed.
+
+Example tx_site_rejects_late_guard :
+  tx_site_ok ("DB.checkpointWithExecutor", "db.go:1", "tx", "transfer:barrierTx", "db.go:9", ["db.go:5"]) = false /\
+  tx_site_ok ("DB.f", "db.go:1", "tx", "none", "", []) = false /\
+  tx_site_ok ("DB.f", "db.go:1", "tx", "defer", "db.go:2", []) = true.
+Proof. vm_compute. repeat split. Qed.
 
 (** the sweeps are not vacuous: the lists are non-empty and contain the known sites *)
 Example stmts_nonempty : (10 <= List.length stmts)%nat /\ (30 <= List.length sites)%nat.
